@@ -362,7 +362,37 @@ def names_rule(repo, res, rule="NAMES"):
             res.check("#compdef H__command__H" in text, rule, f"{rule}:zsh:compdef-header", "#compdef header names the command", fn.loc())
         # the body of every _cmd_ function is the command text
         cm = re.search(r"_H__command__H_cmd_H__id__H[^\n]*\n[ \t]*(H__\w+__H)[ \t]*\n", text)
-        res.check(bool(cm) and "cmd" in cm.group(1), rule, f"{rule}:{mod}:cmd-body", f"body of _<cmd>_cmd_<id> is the hole {cm.group(1) if cm else None}", fn.loc())
+        # ... whatever the hole is called, its value derives from an element of the one command set (dfa.get_commands())
+        body_ok = False
+        from vlib import templates as TM_
+        envs_ = A.collect_envs(fn)
+        hole_name = cm.group(1)[3:-3] if cm else None
+        for s_ in TM_.fmt_sites(fn, envs_):
+            if "_cmd_" in s_.template and hole_name:
+                for idx_, nm_, e_ in s_.holes:
+                    if (nm_ or "") == hole_name or (e_ is not None and e_.get("k") == "Path" and e_.get("path") == hole_name):
+                        calls_ = A.reach_calls(e_, envs_.get(id(e_)) or s_.env, fn=fn, envs=envs_)
+                        body_ok = body_ok or "get_commands" in calls_
+        res.check(bool(cm) and body_ok, rule, f"{rule}:{mod}:cmd-body", f"body of _<cmd>_cmd_<id> is the hole {cm.group(1) if cm else None}, fed from the command set", fn.loc())
+        # the command named on the registration line is the function's own `command` parameter, as given (a sanitised or otherwise
+        # derived name registers the completion for a command nobody types)
+        KEY = {"bash": "complete ", "fish": "complete --command", "zsh": "#compdef", "pwsh": "Register-ArgumentCompleter"}[mod]
+        reg_ok, reg_n = True, 0
+        for s_ in TM_.fmt_sites(fn, envs_):
+            if KEY not in s_.template:
+                continue
+            for idx_, nm_, e_ in s_.holes:
+                before = "".join((p_[1] if p_[0] == "lit" else "\x00") for p_ in s_.pieces[:idx_])
+                line = before.rsplit("\n", 1)[-1]
+                if KEY.strip() not in line or e_ is None:
+                    continue
+                # only the hole that stands for the command itself (not the `_<command>` function name right after `-F _` / `(_`)
+                if line.endswith("_"):
+                    continue
+                reg_n += 1
+                pv = P.peel(A.resolve(e_, envs_.get(id(e_)) or s_.env))
+                reg_ok = reg_ok and pv[0] == "param"
+        res.check(reg_ok and reg_n >= 1, rule, f"{rule}:{mod}:registration-names-the-parameter", f"{reg_n} registration hole(s) for the command name, each the `command` parameter itself" if reg_ok else "the registration line names a value DERIVED from the command parameter, not the command as the user types it", fn.loc())
 
 
 def cmd_set_name(repo, fn, envs):
